@@ -2,6 +2,7 @@ import NanoVerif.Model.Reorder
 import Mathlib.Data.List.Perm.Basic
 import Mathlib.Data.List.Sort
 import Mathlib.Tactic.Linarith
+import Mathlib.Data.List.Basic
 /-
 C11 — Reordering glyphs leaves every table's meaning intact.
 Model: `Model/Reorder.lean`; rule table and fontTools struct list: `Generated/Tables.lean`
@@ -154,5 +155,31 @@ theorem reorder_rejects_length (old new : List String) (h : old.length ≠ new.l
 /-! non-vacuity -/
 example : sortByGid (fun g => if g = "a" then 3 else if g = "b" then 1 else 2) ["a", "b", "c"] (some [10, 20, 30]) =
     (["b", "c", "a"], some [20, 30, 10]) := by decide +kernel
+
+
+/-- a table indexed by glyph id (hmtx, glyf/loca, the CFF charstrings index …): entry `i` belongs to glyph `order[i]` -/
+def entryOf {β} (order : List String) (table : List β) (name : String) : Option β := table[order.idxOf name]?
+
+/-- carrying a gid-indexed table along with a new glyph order: slot `j` of the new table holds the old entry of the glyph now at `j`
+(`none` for a glyph the old table had no entry for) -/
+def carry {β} (old new : List String) (table : List β) : List (Option β) := new.map (entryOf old table)
+
+/-- **C11 (glyph-id-indexed tables)** carrying a table along with the glyph order keeps every glyph's entry, for every old order, new order and
+table: the slot of `g` in the carried table is the entry `g` had. -/
+theorem carry_keeps_entries {β} (old new : List String) (table : List β) (g : String) (hg : g ∈ new) :
+    entryOf new (carry old new table) g = some (entryOf old table g) := by
+  unfold carry
+  have hi : new.idxOf g < new.length := List.idxOf_lt_length_of_mem hg
+  show (new.map (entryOf old table))[new.idxOf g]? = _
+  rw [List.getElem?_map, List.getElem?_eq_getElem hi, List.getElem_idxOf hi]
+  rfl
+
+/-- the counter-statement that was defect 12: a gid-indexed table LEFT in the old order (what `TTFont.setGlyphOrder` does to the CFF
+charstrings) gives glyphs other glyphs' entries as soon as two glyphs swap places -/
+theorem stale_table_mispairs :
+    entryOf [".notdef", "B", "A"] ["o.notdef", "oA", "oB"] "A" ≠ entryOf [".notdef", "A", "B"] ["o.notdef", "oA", "oB"] "A" := by
+  decide +kernel
+
+example : carry [".notdef", "A", "B"] [".notdef", "B", "A"] ["o.notdef", "oA", "oB"] = [some "o.notdef", some "oB", some "oA"] := by decide +kernel
 
 end NanoVerif.C11
